@@ -247,7 +247,7 @@ func (w *ntWorld) runWord(b Beh, tr *Tracer) error {
 		}
 		o := J{"ev": "act", "case": b.ID, "i": i, "a": st.A, "c": st.C, "d": st.D, "ch": st.Ch, "v": st.V, "http": -1, "status": 0, "skipped": false, "panic": false}
 		cs := conns[st.C]
-		needConn := (st.A == "Nested" && st.C != "app") || st.A == "RemoteRace" || st.A == "Close" || st.A == "Sub" || st.A == "Unsub" || st.A == "Remote" || st.A == "Getter" || st.A == "LocalRace" || st.A == "RemoteSub" || st.A == "RemoteUnsub"
+		needConn := st.A == "During" || (st.A == "Nested" && st.C != "app") || st.A == "RemoteRace" || st.A == "Close" || st.A == "Sub" || st.A == "Unsub" || st.A == "Remote" || st.A == "Getter" || st.A == "LocalRace" || st.A == "RemoteSub" || st.A == "RemoteUnsub"
 		if needConn && cs == nil {
 			o["skipped"] = true
 		} else {
@@ -325,6 +325,46 @@ func (w *ntWorld) runWord(b Beh, tr *Tracer) error {
 					v = st.V == 1
 				}
 				o["http"], o["status"] = w.put(cs, J{"aid": ch.aid, "iid": ch.ch.ID, "value": v, "ev": st.A == "RemoteSub"})
+			case "During":
+				// a request of this connection is in flight (its handler waits inside a getter of another characteristic)
+				// while the application changes the value three times
+				ch := w.chars[st.Ch]
+				other := w.chars["z"]
+				if st.Ch == "z" {
+					other = w.chars["x"]
+				}
+				entered, release := make(chan struct{}, 1), make(chan struct{})
+				keep := other.ch.Value
+				other.ch.OnValueGet(func() interface{} {
+					select {
+					case entered <- struct{}{}:
+					default:
+					}
+					<-release
+					return keep
+				})
+				done := make(chan error, 1)
+				go func() {
+					_, err := cs.c.Do("GET", fmt.Sprintf("/characteristics?id=%d.%d", other.aid, other.ch.ID), "", nil)
+					done <- err
+				}()
+				inflight := false
+				select {
+				case <-entered:
+					inflight = true
+				case <-time.After(3 * time.Second):
+				}
+				cur := ch.get()
+				for _, v := range []int{1 - cur, cur, 1 - cur} {
+					ch.set(v)
+				}
+				close(release)
+				select {
+				case <-done:
+				case <-time.After(5 * time.Second):
+				}
+				other.ch.OnValueGet(nil)
+				o["inflight"] = inflight
 			case "Nested":
 				// the application's callback answers the change to st.V by setting the value back
 				ch := w.chars[st.Ch]
